@@ -9,7 +9,8 @@ open Drv
      tref    := <name> <fd int|N> <range|N> <length|N> <npat> <pat>* <nenum> <name>* <nbit> <name>*
                 <path|N> <idbase|N> <nmembers> tref*
    strings are hex ("-" = empty, "N" = absent).
-   output: one JSON object {"tderr":bool,"leaves":[{"leaf":hex,"type":T|null}...]},
+   output: one JSON object {"tderr":bool,"rngerr":bool,"leaves":[{"leaf":hex,"type":T|null}...],
+                            "ranges":[{"leaf":hex,"rng":text|null|"ERR"}...]}  (rng: resolved range of integer types),
      T = {"name","kind","units","default","hasdef","fd","range","length","pattern","enum","bit","path","idbase","union"}
    (strings hex, absent = null). *)
 
@@ -109,6 +110,18 @@ let joutcome = function
   | Outcome.Panic -> "\"PANIC\""
   | Outcome.Unmodelled -> "\"FUEL\""
 
+(* showRangeText of the Go harness: Min.String()..Max.String() joined by "|" (integers) *)
+let show_num (n : Number.coq_Number) =
+  let v = string_of_z n.Number.coq_Value in
+  if n.Number.coq_Negative && v <> "0" then "-" ^ v else v
+let show_range r = Str_.concat "|" (L.map (fun (a, b) -> show_num a ^ ".." ^ show_num b) r)
+let jrange = function
+  | Outcome.Ok None -> "null"
+  | Outcome.Ok (Some r) -> q (show_range r)
+  | Outcome.Err -> "\"ERR\""
+  | Outcome.Panic -> "\"PANIC\""
+  | Outcome.Unmodelled -> "\"UNMODELLED\""
+
 let do_c09 ts =
   toks := ts;
   try
@@ -116,8 +129,11 @@ let do_c09 ts =
     let mods = times n read_module in
     if !toks <> [] then "bad-case" else
     let (tderr, leaves) = Types.process mods in
-    Printf.sprintf "{\"tderr\":%s,\"leaves\":%s}" (if tderr then "true" else "false")
+    let rngs = Types.leaf_ranges mods in
+    Printf.sprintf "{\"tderr\":%s,\"rngerr\":%s,\"leaves\":%s,\"ranges\":%s}" (if tderr then "true" else "false")
+      (if Types.any_range_error mods then "true" else "false")
       (jlist (fun (name, o) -> Printf.sprintf "{\"leaf\":%s,\"type\":%s}" (jstr name) (joutcome o)) leaves)
+      (jlist (fun (name, o) -> Printf.sprintf "{\"leaf\":%s,\"rng\":%s}" (jstr name) (jrange o)) rngs)
   with Bad_case | Failure _ -> "bad-case"
 
 let () = register "c09" do_c09
